@@ -372,6 +372,9 @@ class Basis(np.ndarray):
             return normalize(self)
 
         self /= _norm(self)
+        # The elements changed in place, the cached properties are no longer valid
+        self._isherm = self._isorthonorm = self._istraceless = self._iscomplete = None
+        self._sparse = self._four_element_traces = None
 
     def tidyup(self, eps_scale: Optional[float] = None) -> None:
         """Wraps util.remove_float_errors."""
